@@ -53,6 +53,7 @@ type driverCfg struct {
 	race          bool
 	jobTimeout    time.Duration
 	minimiseFor   time.Duration
+	regress       string
 }
 
 type worker struct {
@@ -195,8 +196,9 @@ func driveMain() {
 	fl.StringVar(&d.known, "known", "", "")
 	fl.StringVar(&d.replays, "replays", "", "")
 	fl.BoolVar(&d.race, "race", false, "binary was built with -race")
-	fl.DurationVar(&d.jobTimeout, "job-timeout", 30*time.Second, "")
+	fl.DurationVar(&d.jobTimeout, "job-timeout", 120*time.Second, "")
 	fl.DurationVar(&d.minimiseFor, "minimise", 60*time.Second, "")
+	fl.StringVar(&d.regress, "regress", "", "directory with replay files of past findings (re-executed first)")
 	fl.Parse(os.Args[2:])
 	if d.workers <= 0 {
 		d.workers = runtime.NumCPU()
@@ -222,7 +224,45 @@ func driveMain() {
 	a := &agg{nontrivial: map[string]bool{}, counters: map[string]int{}, foreign: map[string]int{}, known: map[string]int{}, perMode: map[string]int{}}
 	var violations []*Result
 	nextID := 0
+	// Phase 0: the cases of past findings (committed replay files) are executed first.
+	if d.regress != "" {
+		files, _ := filepath.Glob(filepath.Join(d.regress, d.prop+"-*.json"))
+		sort.Strings(files)
+		for _, f := range files {
+			b, err := os.ReadFile(f)
+			if err != nil {
+				continue
+			}
+			var rf replayFile
+			if json.Unmarshal(b, &rf) != nil || rf.Case == nil || rf.Property != d.prop {
+				fatal2("bad regression file %s", f)
+			}
+			job := &Job{ID: nextID, Prop: d.prop, Seed: rf.RunSeed, Tier: d.tier, Case: rf.Case}
+			nextID++
+			res, died, stderr := d.runAlone(job)
+			a.evals++
+			a.perMode["regression-replay"]++
+			if died {
+				if ownsDeath(d.prop) {
+					violations = append(violations, &Result{Seed: rf.RunSeed, Verdict: "violation", Class: "process-death", Sig: "process-death", Msg: "regression case " + filepath.Base(f) + ": the process died\n" + lastLines(stderr, 20), Case: rf.Case})
+				}
+				continue
+			}
+			if res.Verdict == "violation" {
+				if k := matchKnown(known, res); k != "" {
+					a.known[k]++
+					continue
+				}
+				res.Case = rf.Case
+				res.Msg = "regression case " + filepath.Base(f) + ": " + res.Msg
+				violations = append(violations, res)
+			}
+		}
+	}
 	for _, ph := range phases {
+		if len(violations) > 0 {
+			break
+		}
 		var deadline time.Time
 		if ph.Count == 0 {
 			deadline = time.Now().Add(time.Duration(float64(d.budget) * ph.Share))
